@@ -59,18 +59,18 @@ package base
 //@   prop C08 C01 C02 C10 C11
 //@   modifies ghost.step_failed
 //@   ensures ghost.step_failed == (old(ghost.step_failed) || result1 != nil)
-//@   ensures C08/no-compressor-named-means-raw: !haskey(undoContext, compressorTypeKey) ==> result1 == nil && result0 == rollbackInfo
-//@   ensures C08/decompressed-by-the-named-compressor: haskey(undoContext, compressorTypeKey) ==> called("Decompress#1") && result1 == callres("Decompress#1", 1) && (result1 == nil ==> result0 == callres("Decompress#1", 0))
-//@   at call Decompress#1: assert C08/compressor-from-the-context: arg_self == ufval("compressor.for", undoContext[compressorTypeKey]) && arg_arg0 == rollbackInfo
+//@   ensures no-compressor-named-means-raw: !haskey(undoContext, compressorTypeKey) ==> result1 == nil && result0 == rollbackInfo
+//@   ensures decompressed-by-the-named-compressor: haskey(undoContext, compressorTypeKey) ==> called("Decompress#1") && result1 == callres("Decompress#1", 1) && (result1 == nil ==> result0 == callres("Decompress#1", 0))
+//@   at call Decompress#1: assert compressor-from-the-context: arg_self == ufval("compressor.for", undoContext[compressorTypeKey]) && arg_arg0 == rollbackInfo
 //@ func (*BaseUndoLogManager).deserializeBranchUndoLog
 //@   prop C08 C01 C02 C10 C11
 //@   modifies ghost.step_failed
 //@   ensures ghost.step_failed ==> old(ghost.step_failed) || result1 != nil
 //@   nopanic
 //@   ensures result1 == nil ==> result0 != nil
-//@   ensures C08/unknown-serializer-is-an-error: called("Load#1") && callres("Load#1", 1) != nil ==> result1 != nil && !called("Decode#1")
-//@   at call Load#1: assert C08/parser-from-the-context: logCtx != nil && logCtx[serializerKey] != "" ==> arg_name == logCtx[serializerKey]
-//@   at call Decode#1: assert C08/decodes-what-was-decompressed: arg_bytes == rbInfo && (called("Load#1") ==> arg_self == callres("Load#1", 0))
+//@   ensures unknown-serializer-is-an-error: called("Load#1") && callres("Load#1", 1) != nil ==> result1 != nil && !called("Decode#1")
+//@   at call Load#1: assert parser-from-the-context: logCtx != nil && logCtx[serializerKey] != "" ==> arg_name == logCtx[serializerKey]
+//@   at call Decode#1: assert decodes-what-was-decompressed: arg_bytes == rbInfo && (called("Load#1") ==> arg_self == callres("Load#1", 0))
 //@ ext seata.apache.org/seata-go/pkg/datasource/sql/undo/factor.GetUndoExecutor
 //@   modifies ghost.step_failed
 //@   ensures ghost.step_failed == (old(ghost.step_failed) || result1 != nil) && (result1 == nil ==> result0 != nil)
@@ -110,7 +110,7 @@ package base
 //@   prop C10 C02 C01 C08 C11
 //@   ensures insert-fails-on-an-existing-row: result[0:12] == "INSERT INTO " && !contains(result, "IGNORE") && !contains(result, "ON DUPLICATE KEY")
 //@ func (*BaseUndoLogManager).Undo
-//@   prop C10 C01 C02 C08 C11
+//@   prop C10 C01 C02 C08 C11 C09
 //@   local undoLogRecords []undo.UndologRecord
 //@   ensures transaction-on-the-rollback-connection: !called("(*DB).BeginTx#1") && (ghost.utx != 0 ==> called("(*Conn).BeginTx#1") && callarg("(*Conn).BeginTx#1", 0) == callres("(*DB).Conn#1", 0))
 //@   modifies ghost.all, heap.all
@@ -121,10 +121,10 @@ package base
 //@   ensures conn-released: ghost.conns_out == old(ghost.conns_out) && ghost.stmts_open == old(ghost.stmts_open) && ghost.rows_open == old(ghost.rows_open)
 //@   at return: assert marker-when-no-row: result == nil && !localor("exists", true) ==> called("insertUndoLogWithGlobalFinished#1")
 //@   ensures not-both: !(called("DeleteUndoLog#1") && called("insertUndoLogWithGlobalFinished#1"))
-//@   at call DeleteUndoLog#1: assert C01/deletes-own-log: arg_xid == xid && arg_branchID == branchID && arg_conn == conn && ghost.utx == 1 && exists
+//@   at call DeleteUndoLog#1: assert deletes-own-log: arg_xid == xid && arg_branchID == branchID && arg_conn == conn && ghost.utx == 1 && exists
 //@   at call insertUndoLogWithGlobalFinished#1: assert marker-for-this-branch: arg_xid == xid && arg_branchID == branchID % pow2(64) && arg_conn == conn && ghost.utx == 1 && !exists
 //@   at call ExecuteOn#1: assert same-connection: arg_conn == conn && ghost.utx == 1
-//@   at call GetUndoExecutor#1: assert C01/reverse-order: called("Reverse#1") && sqlUndoLogs == callres("deserializeBranchUndoLog#1", 0).Logs
+//@   at call GetUndoExecutor#1: assert reverse-order: called("Reverse#1") && sqlUndoLogs == callres("deserializeBranchUndoLog#1", 0).Logs
 //@   let j := some(int, "j")
 //@   loop 2 invariant undoable-so-far: 0 <= j && j <= rangeindex2 && j < len(undoLogRecords) ==> undoLogRecords[j].LogStatus == undo.UndoLogStatueNormnal
 //@   loop 3 invariant undoable-so-far: 0 <= j && j <= rangeindex2 + 1 && j < len(undoLogRecords) ==> undoLogRecords[j].LogStatus == undo.UndoLogStatueNormnal
@@ -149,10 +149,10 @@ package base
 //@   prop C08 C01 C02 C10 C11
 //@   modifies ghost.dstep_failed
 //@   ensures ghost.dstep_failed ==> old(ghost.dstep_failed) || result1 != nil
-//@   ensures C08/unknown-serializer-is-an-error: called("Load#1") && callres("Load#1", 1) != nil ==> result1 != nil && !called("Encode#1")
-//@   ensures C08/encoded-by-the-named-parser: result1 == nil ==> called("Encode#1") && result0 == callres("Encode#1", 0)
-//@   at call Load#1: assert C08/parser-by-name: arg_name == serializerType
-//@   at call Encode#1: assert C08/encodes-this-log: arg_self == callres("Load#1", 0) && arg_branchUndoLog == log
+//@   ensures unknown-serializer-is-an-error: called("Load#1") && callres("Load#1", 1) != nil ==> result1 != nil && !called("Encode#1")
+//@   ensures encoded-by-the-named-parser: result1 == nil ==> called("Encode#1") && result0 == callres("Encode#1", 0)
+//@   at call Load#1: assert parser-by-name: arg_name == serializerType
+//@   at call Encode#1: assert encodes-this-log: arg_self == callres("Load#1", 0) && arg_branchUndoLog == log
 //@ func (*BaseUndoLogManager).encodeUndoLogCtx
 //@   trusted
 //@   ensures true
@@ -175,8 +175,8 @@ package base
 //@   ensures rows-written-means-undo-log-written: result == nil && ghost.dexecs == old(ghost.dexecs) && 0 <= i ==> (i < len(tranCtx.RoundImages.before) && tranCtx.RoundImages.before[i] != nil ==> len(tranCtx.RoundImages.before[i].Rows) == 0) && (i < len(tranCtx.RoundImages.after) && tranCtx.RoundImages.after[i] != nil ==> len(tranCtx.RoundImages.after[i].Rows) == 0)
 //@   ensures written-or-skipped: result == nil ==> ghost.dexecs == old(ghost.dexecs) || (ghost.dexecs == old(ghost.dexecs) + 1 && called("InsertUndoLog#1"))
 //@   at call InsertUndoLog#1: assert log-of-this-branch: arg_record.BranchID == tranCtx.BranchID && arg_record.XID == tranCtx.XID && arg_record.LogStatus == undo.UndoLogStatueNormnal && arg_conn == conn
-//@   at call serializeBranchUndoLog#1: assert C08/serializer-named-in-the-context: arg_serializerType == callarg("encodeUndoLogCtx#1", 1)[serializerKey]
-//@   at call InsertUndoLog#1: assert C08/stored-bytes-match-the-context: arg_record.Context == callres("encodeUndoLogCtx#1", 0) && called("Compress#1") && callres("Compress#1", 1) == nil && arg_record.RollbackInfo == callres("Compress#1", 0) && callarg("Compress#1", 1) == callres("serializeBranchUndoLog#1", 0) && callarg("Compress#1", 0) == ufval("compressor.for", callarg("encodeUndoLogCtx#1", 1)[compressorTypeKey])
+//@   at call serializeBranchUndoLog#1: assert serializer-named-in-the-context: arg_serializerType == callarg("encodeUndoLogCtx#1", 1)[serializerKey]
+//@   at call InsertUndoLog#1: assert stored-bytes-match-the-context: arg_record.Context == callres("encodeUndoLogCtx#1", 0) && called("Compress#1") && callres("Compress#1", 1) == nil && arg_record.RollbackInfo == callres("Compress#1", 0) && callarg("Compress#1", 1) == callres("serializeBranchUndoLog#1", 0) && callarg("Compress#1", 0) == ufval("compressor.for", callarg("encodeUndoLogCtx#1", 1)[compressorTypeKey])
 //@   at call serializeBranchUndoLog#1: assert serializes-this-branch: arg_log.Xid == tranCtx.XID && arg_log.BranchID == tranCtx.BranchID
 
 // the parser cache is a lazily initialised process-wide singleton (sync.Once); abstract here
